@@ -201,7 +201,8 @@ CLAIMED = {
         text="Lean 4, the whole uncompressed descriptor stack as ONE state machine (Model.Stack: CdnsExporter's buffered block and block counter on "
              "CdnsEncoder's staging buffer with flush_buffer ANYWHERE on the bottom writer with m_failed, OS answers from a fault schedule): "
              "stack_failure_reported (for every API history, fault schedule and flush placement an output closed by rotate_output lost no byte "
-             "unless an API call threw while it was open), stack_block_kept (an exception out of write_block()/a flushing buffer_*() leaves the "
+             "unless an API call threw while it was open), stack_closed_output_is_complete_file (what the OS holds of such an output is nothing or exactly "
+             "header ++ the non-empty blocks written ++ break: C13/C02 at the level of the system calls), stack_reported_once, stack_block_kept (an exception out of write_block()/a flushing buffer_*() leaves the "
              "records buffered, the one just handed over included), stack_recovery (after a reported failure rotate_output(healthy,false) returns "
              "normally with the records kept, write_block() writes header+block, the closing rotation leaves exactly header++block++break, "
              "nothing thrown). Tie of Model.Stack (driver stk, os layer mode stk): the same sessions on the real exporter with every fault point "
